@@ -2,7 +2,7 @@
    address family ([fam_of cfg false] = IPv4, [fam_of cfg true] = IPv6; the theorems hold for every
    family record), [nat_eval rules hook p] the verdict of the reference netfilter evaluator for the
    nat table.  All statements are for every configuration and every packet. *)
-From V Require Import lib.Verdict C20.Model C20.Proofs C20.ProofsOut C20.ProofsPre C20.ProofsCor.
+From V Require Import lib.Verdict C20.Model C20.Proofs C20.ProofsOut C20.ProofsPre C20.ProofsCor C20.ProofsMangle.
 Open Scope N_scope.
 
 (* Full verdict of the generated nat rules at the OUTPUT hook, for every locally generated packet
@@ -83,6 +83,24 @@ Theorem C20_v4_v6_same_policy : forall cfg p4 p6,
   nat_eval (gen cfg (fam_of cfg false)) PREROUTING p4 = nat_eval (gen cfg (fam_of cfg true)) PREROUTING p6.
 Proof. exact v4_v6_same_policy. Qed.
 Print Assumptions C20_v4_v6_same_policy.
+
+(* TPROXY mode / INVALID drop: full verdict of the mangle table at PREROUTING (conntrack state and
+   packet mark are inputs). *)
+Theorem C20_mangle_prerouting_verdict : forall cfg fm p,
+  eval Tmangle (gen cfg fm) PREROUTING p = spec_mangle_pre cfg fm p.
+Proof. exact mangle_prerouting_verdict. Qed.
+Print Assumptions C20_mangle_prerouting_verdict.
+
+(* TPROXY mode: a new inbound TCP connection on a non-loopback, non-excluded interface is handed to
+   the proxy iff its port is selected. *)
+Theorem C20_inbound_tproxy : forall cfg fm p,
+  tproxy cfg = true -> is_tcp p = true ->
+  mem (k_in p) (excl_ifs cfg) = false -> k_inv p = false ->
+  (k_in p =? lo) = false -> (k_mark p =? tmark cfg) = false ->
+  k_est p = false -> cidr_match (f_loop fm) (k_dst p) = false ->
+  (eval Tmangle (gen cfg fm) PREROUTING p = VTproxy (tmark cfg) (in_port cfg) <-> tp_selected cfg p = true).
+Proof. exact inbound_tproxy_iff. Qed.
+Print Assumptions C20_inbound_tproxy.
 
 (* non-vacuity: with the example configuration (include "*", exclude 10.0.0.0/8) an application packet
    to 11.0.0.1:80 is redirected, one to 10.0.0.5:80 is not, the proxy's own packet is not, and the
